@@ -2,9 +2,10 @@
 (***************************************************************************)
 (* C11: no enumerated input makes an entry point panic or run unreasonably *)
 (* long; and the expression-tree parser accepts exactly the strings the    *)
-(* L2 model ExprParser accepts (drift is reported as information).         *)
+(* L2 model ExprParser accepts, and the script lexer answers as the L2     *)
+(* model Lexer does (drift is reported as information).                    *)
 (***************************************************************************)
-EXTENDS ExprParser, Json, IOUtils
+EXTENDS ExprParser, Lexer, Json, IOUtils
 
 ASSUME TLCSet(1, ndJsonDeserialize(IOEnv.TRACE))
 Rec == TLCGet(1)
@@ -25,6 +26,12 @@ JudgeEvent(ev) ==
   /\ (ev.kind # "str" \/
       LET cls == [q \in 1..Len(ev.chars) |-> Class(ev.chars[q])] IN
       ev.tree_ok = Accepts(cls) \/ Report("INFO", "expression_parser_drifts_from_model", ev, <<ev.tree_ok, Pass1(cls).err>>))
+  \* L2 conformance: the script lexer against Lexer.tla - the same tokens, or the same kind of error
+  /\ (ev.kind # "tokens" \/
+      \A L \in {Lex(ev.toks)} :
+        /\ (ev.lex.st # "panic" \/ Report("C11", "panic", ev, "lex"))
+        /\ (ev.lex.st = "panic" \/ (IF L.err = "" THEN ev.lex.st = "ok" /\ ev.lex.toks = L.toks ELSE ev.lex.st = "err" /\ ev.lex.err = L.err)
+            \/ Report("INFO", "lexer_drifts_from_model", ev, <<ev.lex, L>>)))
 
 Inv == i > 0 => JudgeEvent(Rec[i])
 Post == PrintT("TRACE_DONE " \o ToJson(<<Len(Rec), TLCGet("stats").distinct>>))
